@@ -463,6 +463,9 @@ func emitNonrevAttacks(g *Rng, kp *KeyPair, ir *issuerRev, cred *gabi.Credential
 		d[len(d)-3] ^= 4
 		sa["data"] = B(d)
 		emit(nrOp(kp, t2, ctx, nonce, "nr-bad-signature", "reject"))
+		// the same message read into an object that has just carried (and verified) the honest proof:
+		// the signed bytes are verified again, nothing decoded from the earlier ones is kept
+		emit(verifyDOp(kp.id, cloneTree(t2), ctx, nonce, false, "nr-bad-signature-into-used-object", "reject").with("decode_after", cloneTree(tree)).with("fkey", "C18/decoded-accumulator-kept"))
 		t3 := cloneTree(tree).(T)
 		t3["nonrev_proof"].(T)["sacc"].(T)["pk"] = int(kp.pk.Counter) + 1
 		emit(nrOp(kp, t3, ctx, nonce, "nr-wrong-counter", "reject"))
